@@ -338,21 +338,53 @@ pub fn run(tier: Tier) -> i32 {
             Bin::Lt,
             Bin::Eq,
         ];
-        // bound the square: all pairs (x, y) with x from V2 and y from the
-        // depth-1 closure — every operand position still sees every V2 value.
-        for op in int_ops {
-            for a in &vals2 {
-                for c in &vals {
-                    if !int_only(c) {
-                        continue;
-                    }
-                    if let Some(ec) = reps_lazy.get(c) {
-                        cases.push(Case { e: E::bin(op, reps2[a].clone(), ec.clone()), build: "lazy-d3" });
-                        cases.push(Case { e: E::bin(op, ec.clone(), reps2[a].clone()), build: "lazy-d3" });
-                        depth3 += 2;
-                    }
-                }
+        // the full square V2 x V2 for every integer operator, in the lazy
+        // build and (where both representatives are literal-only) the folded
+        // build; generated on the fly, not materialised
+        let mut reps2_folded: BTreeMap<Val, E> = BTreeMap::new();
+        for c in &cases {
+            let mut cols = BTreeSet::new();
+            c.e.columns(&mut cols);
+            if !cols.is_empty() {
+                continue;
             }
+            let acc = ref_eval(&c.e, &lookup);
+            if acc.len() == 1 && int_only(&acc[0]) {
+                reps2_folded.entry(acc[0].clone()).or_insert(c.e.clone());
+            }
+        }
+        let n2 = vals2.len();
+        let total3 = int_ops.len() * n2 * n2;
+        let d3: Vec<(String, String, E, &'static str)> = (0..total3)
+            .into_par_iter()
+            .map_init(
+                || {
+                    let mut p = make_row_package();
+                    the_row(&mut p)
+                },
+                |row, idx| {
+                    let op = int_ops[idx / (n2 * n2)];
+                    let a = &vals2[(idx / n2) % n2];
+                    let c = &vals2[idx % n2];
+                    let mut out = Vec::new();
+                    let lazy = Case { e: E::bin(op, reps2[a].clone(), reps2[c].clone()), build: "lazy-d3" };
+                    if let Some((sig, d)) = check_case(&lazy, row).violation {
+                        out.push((sig, d, lazy.e.clone(), "lazy-d3"));
+                    }
+                    if let (Some(fa), Some(fc)) = (reps2_folded.get(a), reps2_folded.get(c)) {
+                        let folded = Case { e: E::bin(op, fa.clone(), fc.clone()), build: "folded-d3" };
+                        if let Some((sig, d)) = check_case(&folded, row).violation {
+                            out.push((sig, d, folded.e.clone(), "folded-d3"));
+                        }
+                    }
+                    out
+                },
+            )
+            .flatten()
+            .collect();
+        depth3 = total3 * 2;
+        for (sig, d, e, build) in d3 {
+            rep.violation(sig, d, json!({"kind":"c13-expr","expr": e, "build": build}));
         }
         rep.set("v2_values", vals2.len());
     }
